@@ -96,6 +96,54 @@ func readyField(v ssa.Value, rd *ssa.Alloc) string {
 		return ""
 	}
 	var names []string
+	for hops := 0; hops < 3; hops++ {
+		// a local copy of a part of the Ready (`incoming := rd.Snapshot`): follow the copy back to the Ready's field
+		root := a
+		for {
+			fa, isF := root.(*ssa.FieldAddr)
+			if !isF {
+				break
+			}
+			root = fa.X
+		}
+		al, isA := root.(*ssa.Alloc)
+		if !isA || al == rd {
+			break
+		}
+		st := storesTo(al.Parent(), al)
+		if len(st) != 1 {
+			break
+		}
+		src, isL := loadOf(st[0].Val)
+		if !isL {
+			break
+		}
+		// rebuild the path: fields selected on the copy, appended to the source path
+		var sel []*ssa.FieldAddr
+		for x := a; ; {
+			fa, isF := x.(*ssa.FieldAddr)
+			if !isF {
+				break
+			}
+			sel = append([]*ssa.FieldAddr{fa}, sel...)
+			x = fa.X
+		}
+		for _, fa := range sel {
+			names2 := structField(fa.X.Type(), fa.Field).Name()
+			defer func(n string) {}(names2)
+		}
+		// resolve the source first, then add the selections made on the copy
+		base := readyField(st[0].Val, rd)
+		if base == "" {
+			return ""
+		}
+		parts := []string{base}
+		for _, fa := range sel {
+			parts = append(parts, structField(fa.X.Type(), fa.Field).Name())
+		}
+		_ = src
+		return strings.Join(parts, ".")
+	}
 	for {
 		fa, ok := a.(*ssa.FieldAddr)
 		if !ok {
@@ -530,6 +578,7 @@ func raftLoopRules(c *Ctx, r *Report, ids map[string]string) *readyLoop {
 
 func checkC03(c *Ctx, r *Report, tier string) {
 	round5(c, r, "C03")
+	round6(c, r, "C03")
 	r.Rule("C03.R1", "persist dominates apply, acknowledgement and Advance: one plain persist call per Ready taking HardState, Entries and Snapshot of the same Ready; it dominates every apply site and Advance; its error branch reaches none of them", 4)
 	r.Rule("C03.R2", "acknowledgement only from the apply tree: every function that calls Notificator.Notify is reachable from an apply root and from no RPC root / background loop", 8)
 	r.Rule("C03.R3", "a persist call that returns nil has flushed: in every batch function each return after the batch is created returns Flush()'s value or a tested non-nil error; Set/Delete results are never discarded; Cancel is deferred; the Badger options keep SyncWrites on", 8)
@@ -811,22 +860,54 @@ func c03R4(c *Ctx, r *Report, rl *readyLoop, ro *roles) {
 					nSrc := 0
 					// the applied index may be carried by the loop function and updated by the body helper's result
 					var srcs []ssa.Value
-					for _, o := range origins(arg, originOpt{}) {
-						if hc, isC := o.(*ssa.Call); isC && rl.helperBody && hc.Call.StaticCallee() == rl.fn {
-							for _, rt := range returnsOf(rl.fn) {
-								for _, res := range rt.Results {
-									for _, o2 := range origins(res, originOpt{}) {
-										if _, isP := o2.(*ssa.Parameter); isP {
-											continue
-										}
-										srcs = append(srcs, o2)
+					seenSrc := map[ssa.Value]bool{}
+					seenCall := map[*ssa.Call]bool{}
+					var expand func(v ssa.Value, frames []*ssa.Call, depth int)
+					expand = func(v ssa.Value, frames []*ssa.Call, depth int) {
+						for _, o := range origins(v, originOpt{}) {
+							if depth < 8 {
+								var hc *ssa.Call
+								idx := 0
+								if cl, isC := o.(*ssa.Call); isC {
+									hc = cl
+								} else if ex, isE := o.(*ssa.Extract); isE {
+									if cl, isC := ex.Tuple.(*ssa.Call); isC {
+										hc, idx = cl, ex.Index
 									}
 								}
+								// the applied index carried through helpers of the loop (handleReady, applyCommittedEntries, …)
+								if hc != nil && seenCall[hc] {
+									continue // the loop-carried value coming round again
+								}
+								if hc != nil && hc.Call.StaticCallee() != nil && modLocal(hc.Call.StaticCallee()) && len(hc.Call.StaticCallee().Blocks) > 0 && recvTypeName(hc.Call.StaticCallee()) == recvTypeName(rl.loopFn) && recvTypeName(rl.loopFn) != "" {
+									seenCall[hc] = true
+									for _, rt := range returnsOf(hc.Call.StaticCallee()) {
+										if idx < len(rt.Results) {
+											expand(rt.Results[idx], append(frames, hc), depth+1)
+										}
+									}
+									continue
+								}
+								if p, isP := o.(*ssa.Parameter); isP && len(frames) > 0 {
+									fr := frames[len(frames)-1]
+									for k, q := range fr.Call.StaticCallee().Params {
+										if q == p && k < len(fr.Call.Args) {
+											expand(fr.Call.Args[k], frames[:len(frames)-1], depth+1)
+										}
+									}
+									continue
+								}
 							}
-							continue
+							if _, isP := o.(*ssa.Parameter); isP && depth > 0 {
+								continue // the carried value itself, handed down by the loop
+							}
+							if !seenSrc[o] {
+								seenSrc[o] = true
+								srcs = append(srcs, o)
+							}
 						}
-						srcs = append(srcs, o)
 					}
+					expand(arg, nil, 0)
 					for _, o := range srcs {
 						if _, isC := o.(*ssa.Const); isC {
 							continue
@@ -844,6 +925,10 @@ func c03R4(c *Ctx, r *Report, rl *readyLoop, ro *roles) {
 						nSrc++
 						// either entry.Index of the committed-entries element, or rd.Snapshot.Metadata.Index
 						if n := readyField(o, rl.rd); n == "Snapshot.Metadata.Index" {
+							continue
+						}
+						// the same field of a snapshot value that a helper was handed (applyReadySnapshot(rd.Snapshot, …))
+						if fa2, isF2 := fa.X.(*ssa.FieldAddr); isF2 && typeName(derefType(fa2.X.Type())) == "Snapshot" && structField(fa2.X.Type(), fa2.Field).Name() == "Metadata" && o.(ssa.Instruction).Parent() != rl.fn {
 							continue
 						}
 						if al, isA := fa.X.(*ssa.Alloc); isA && typeName(al.Type().(*types.Pointer).Elem()) == "Entry" {
@@ -882,18 +967,45 @@ func c03R5(c *Ctx, r *Report, ro *roles) {
 		if !c.isProd(f) {
 			continue
 		}
-		var goLoop *ssa.Go
+		var goLoop ssa.Instruction
+		isGo := false
 		eachInstr(f, func(i ssa.Instruction) {
 			if g, ok := i.(*ssa.Go); ok {
 				for _, l := range ro.readyLoops {
 					if g.Call.StaticCallee() == l {
 						goLoop = g
+						isGo = true
 					}
 				}
+			}
+			// the spawn may be wrapped in a small helper (spawnLoop())
+			if cl, ok := i.(*ssa.Call); ok && loopSpawners(c, ro)[cl.Call.StaticCallee()] && cl.Call.StaticCallee() != f {
+				goLoop = cl
 			}
 		})
 		if goLoop == nil {
 			continue
+		}
+		if isGo {
+			// a pure spawn helper: judged at its callers
+			hasRestore, called := false, false
+			eachInstr(f, func(i ssa.Instruction) {
+				if cc := plainCall(i); cc != nil && cc.StaticCallee() == nil && !cc.IsInvoke() {
+					if fld := fieldOfValue(cc.Value); fld != nil && typeName(fld.Type()) == "ProcessFn" {
+						hasRestore = true
+					}
+				}
+			})
+			for _, g := range c.ModFuncs {
+				eachInstr(g, func(i ssa.Instruction) {
+					if cl, ok := i.(*ssa.Call); ok && cl.Call.StaticCallee() == f && g != f {
+						called = true
+					}
+				})
+			}
+			if !hasRestore && called {
+				continue
+			}
 		}
 		// restore call through a ProcessFn field with Snapshot().Data
 		var restore ssa.Instruction
@@ -928,12 +1040,12 @@ func c03R5(c *Ctx, r *Report, ro *roles) {
 			continue
 		}
 		first := firstInstr(succOn(emptyIf, !emptyPol))
-		_, skip := reachesAvoidingFrom(f, first, func(i ssa.Instruction) bool { return i == ssa.Instruction(goLoop) }, func(i ssa.Instruction) bool { return i == restore })
+		_, skip := reachesAvoidingFrom(f, first, func(i ssa.Instruction) bool { return i == goLoop }, func(i ssa.Instruction) bool { return i == restore })
 		// and a failed restore does not start the loop
 		okErr := true
 		if call, ok := restore.(*ssa.Call); ok {
 			if ifi, pol := errTestOf(f, call); ifi != nil {
-				if _, reach := reachesAvoidingFrom(f, firstInstr(succOn(ifi, pol)), func(i ssa.Instruction) bool { return i == ssa.Instruction(goLoop) }, func(ssa.Instruction) bool { return false }); reach {
+				if _, reach := reachesAvoidingFrom(f, firstInstr(succOn(ifi, pol)), func(i ssa.Instruction) bool { return i == goLoop }, func(ssa.Instruction) bool { return false }); reach {
 					okErr = false
 				}
 			} else {
@@ -1142,12 +1254,13 @@ func condReadsStorage(v ssa.Value, depth int) bool {
 
 func checkC05(c *Ctx, r *Report, tier string) {
 	round5(c, r, "C05")
+	round6(c, r, "C05")
 	r.Rule("C05.R1", "send discipline (etcd/raft host contract): every send of rd.Messages is dominated by the persist call or guarded by the leader test; messages are never dropped; the leader id is assigned once per Ready before both tests", 3)
 	r.Rule("C05.R2", "persist is one plain call on the same Ready, dominates every apply site, and its failure is fatal", 4)
 	r.Rule("C05.R3", "Advance exactly once per Ready, after every apply site, on every path back to the select", 1)
 	r.Rule("C05.R4", "every committed ConfChange reaches ApplyConfChange: the EntryConfChange branch of the in-order loop over CommittedEntries calls the handler with that entry; every non-error return of the handler is dominated by ApplyConfChange on the value unmarshalled from the entry", 3)
 	r.Rule("C05.R5", "restart is not bootstrap: StartNode only under a fresh-log test on the same Storage", 1)
-	r.Rule("C05.R7", "Step errors surface: the transport's receive path returns the error of Node.Step to the sender", 2)
+	r.Rule("C05.R7", "Step errors surface: the transport's receive path returns the error of Node.Step to the sender", 1)
 	for _, k := range []string{"send#", "send-complete"} {
 		r.Need("C05.R1", k, "the Ready loop's send sites must be found")
 	}
@@ -1240,6 +1353,39 @@ func c05R4(c *Ctx, r *Report, rl *readyLoop, ro *roles) {
 			}
 		}
 	})
+	if entry == nil {
+		// the loop may live in a helper of the same receiver that is handed rd.CommittedEntries (applyCommittedEntries(entries, …))
+		eachInstr(fn, func(i ssa.Instruction) {
+			cl, ok := i.(*ssa.Call)
+			if !ok || cl.Call.StaticCallee() == nil || !modLocal(cl.Call.StaticCallee()) || recvTypeName(cl.Call.StaticCallee()) != recvTypeName(fn) {
+				return
+			}
+			g := cl.Call.StaticCallee()
+			for k, a := range cl.Call.Args {
+				if readyField(a, rl.rd) != "CommittedEntries" || k >= len(g.Params) {
+					continue
+				}
+				p := g.Params[k]
+				eachInstr(g, func(j ssa.Instruction) {
+					st, ok := j.(*ssa.Store)
+					if !ok {
+						return
+					}
+					al, ok := st.Addr.(*ssa.Alloc)
+					if !ok {
+						return
+					}
+					if l, ok := loadOf(st.Val); ok {
+						if ia, ok := l.(*ssa.IndexAddr); ok && strip(ia.X) == ssa.Value(p) && isLoopCounter(ia.Index) {
+							entry = al
+							fn = g
+							name = fnName(g)
+						}
+					}
+				})
+			}
+		})
+	}
 	if entry == nil {
 		r.Unk("C05.R4", name, "committed-loop", c.Pos(fn.Pos()), "no in-order range loop over rd.CommittedEntries found")
 		return
